@@ -275,8 +275,11 @@ def run_lines(lines, workdir, profile="debug"):
     with open(cp, "w") as f:
         f.write("\n".join(lines) + "\n")
     base = os.path.join(workdir, "x")
-    rcs = run_parallel([([harness_bin(profile), "run", cp, base + ".impl", base + ".scratch"],
-                         {"VERIF_STDOUT": base + ".out", "VERIF_STDERR": base + ".err"}, base + ".out", base + ".err")], 600)
+    env = {"VERIF_STDOUT": base + ".out", "VERIF_STDERR": base + ".err"}
+    if any(l.startswith("bin ") for l in lines):
+        tftpd, tftpc = build_repo_bins()
+        env.update({"VERIF_TFTPD": tftpd, "VERIF_TFTPC": tftpc})
+    rcs = run_parallel([([harness_bin(profile), "run", cp, base + ".impl", base + ".scratch"], env, base + ".out", base + ".err")], 600)
     drv = os.path.join(BUILD, "ocaml", "driver")
     sh(["bash", "-c", f"ulimit -s unlimited 2>/dev/null; exec {drv} {cp} {base}.model"], timeout=600)
     impl = open(base + ".impl").read().split("\n")[:-1] if os.path.exists(base + ".impl") else ["<crash>"] * len(lines)
